@@ -2,3 +2,7 @@ reg("C08", "property-based testing: generated design recipes, uniquify, independ
     "Exploration: thousands of generated hierarchical netlists with every sharing pattern are uniquified and compared with an independent elaborator (occurrence tree, leaf types, endpoint partition), plus uniqueness, well-formedness, naming and idempotence checks. Random search with bounds (<=9 definitions, depth<=5); no absence claim.",
     "Trusted: vf/model.py (elaborator, wf), the recipe builder using the public construction API; Hypothesis. The top instance itself is not required to be unique.",
     "DESIGN.md 3 C08")
+reg("C09", "property-based testing: generated design recipes, uniquify+flatten, independent elaboration oracle (endpoint-partition equality, leaf occurrence set)",
+    "Exploration: thousands of generated named hierarchical netlists are flattened; an independent elaborator computes before-hand the set of leaf occurrences (slash path, definition, data) and the partition of leaf pin bits and top port bits into nets; after flatten the same is read directly off the flat top definition and compared for equality (the 'if and only if'), plus wf-core. Random search within bounds; no absence claim.",
+    "Trusted: vf/model.py elaborator, recipe builder, Hypothesis. Uses uniquify to make shared designs unique (C08 decides uniquify itself).",
+    "DESIGN.md 3 C09")
